@@ -1,6 +1,6 @@
 (* C18: the minimiser+k-mers iterator agrees with the plain one and conserves all w-mers. *)
 From Coq Require Import NArith List.
-From KT Require Import Gen.Generated Gen.Alphabet Gen.GeneratedFacts Model.Kmer Proof.MinAbs Proof.MinConc Proof.KmMin.
+From KT Require Import Gen.Generated Gen.Alphabet Gen.FactsBase Gen.FactTableKmerMinimisers Model.Kmer Proof.MinAbs Proof.MinConc Proof.KmMin.
 Import ListNotations.
 Open Scope N_scope.
 
